@@ -50,6 +50,8 @@ pub enum Stop {
     Unspec(&'static str),
     /// the model ran out of its own step budget
     Diverge,
+    /// the run was cut short from outside after a given number of effects (sessions: injected failure)
+    Cut,
 }
 
 #[derive(Clone)]
@@ -370,6 +372,8 @@ pub struct Interp<'a> {
     fuel: u64,
     depth: u32,
     effects: u64,
+    /// cut the run short right before effect number `effect_limit` (0-based) would happen
+    pub effect_limit: Option<u64>,
     pub quirks: Quirks,
     literal_pool: HashMap<String, Rc<RefCell<String>>>,
     /// statistics: which (U1/U2) reads of unbound declarations happened
@@ -404,6 +408,7 @@ impl<'a> Interp<'a> {
             fuel: MODEL_FUEL,
             depth: 0,
             effects: 0,
+            effect_limit: None,
             quirks: Quirks::default(),
             literal_pool: HashMap::new(),
             max_depth: 0,
@@ -429,6 +434,7 @@ impl<'a> Interp<'a> {
         self.out.clear();
         self.fuel = MODEL_FUEL;
         self.depth = 0;
+        self.effects = 0;
         self.frames.clear();
         let mut trial = self.res.clone();
         if let Err(stop) = trial.program(ast) {
@@ -438,6 +444,7 @@ impl<'a> Interp<'a> {
                     Stop::Err(e) => End::Error(e),
                     Stop::Unspec(u) => End::Unspec(u),
                     Stop::Diverge => End::Diverge,
+                    Stop::Cut => End::Error(MErr::Any),
                 },
             };
         }
@@ -447,6 +454,7 @@ impl<'a> Interp<'a> {
             Err(Stop::Err(e)) => End::Error(e),
             Err(Stop::Unspec(u)) => End::Unspec(u),
             Err(Stop::Diverge) => End::Diverge,
+            Err(Stop::Cut) => End::Error(MErr::Any),
         };
         ModelOutcome {
             output: std::mem::take(&mut self.out),
@@ -470,6 +478,33 @@ impl<'a> Interp<'a> {
             V::Residue => Ok(None), // U4
             v => Ok(Some(render(&v))),
         }
+    }
+
+    /// Registers one observable effect (a completed assignment, element store or print).
+    fn effect(&mut self) -> Result<(), Stop> {
+        if let Some(l) = self.effect_limit {
+            if self.effects >= l {
+                return Err(Stop::Cut);
+            }
+        }
+        self.effects += 1;
+        Ok(())
+    }
+
+    /// Effects performed by the last line.
+    pub fn effects(&self) -> u64 {
+        self.effects
+    }
+
+    /// Canonical text of the persistent global environment (for state merging in session search).
+    pub fn fingerprint(&self) -> String {
+        let mut s = String::new();
+        for (i, g) in self.globals.iter().enumerate() {
+            if let Some(v) = g {
+                s.push_str(&format!("{i}={};", render(v)));
+            }
+        }
+        s
     }
 
     fn tick(&mut self) -> Result<(), Stop> {
@@ -496,7 +531,7 @@ impl<'a> Interp<'a> {
         if let V::Residue = v {
             return Err(Stop::Unspec("U4"));
         }
-        self.effects += 1;
+        self.effect()?;
         if r.global {
             let i = r.decl as usize;
             if self.globals.len() <= i {
@@ -854,7 +889,7 @@ impl<'a> Interp<'a> {
                 let n = a.borrow().len();
                 match norm_index(i, n) {
                     Some(k) => {
-                        self.effects += 1;
+                        self.effect()?;
                         a.borrow_mut()[k] = v.clone();
                         Ok(v)
                     }
@@ -883,7 +918,7 @@ impl<'a> Interp<'a> {
                         if repl.chars().count() != 1 {
                             return Err(Stop::Unspec("U8"));
                         }
-                        self.effects += 1;
+                        self.effect()?;
                         let mut st = s.borrow_mut();
                         let (pos, ch) = st.char_indices().nth(k).unwrap();
                         st.replace_range(pos..pos + ch.len_utf8(), &repl);
@@ -914,8 +949,8 @@ impl<'a> Interp<'a> {
                 }
             }
             line.push('\n');
+            self.effect()?;
             self.out.push_str(&line);
-            self.effects += 1;
             return Ok(V::Null);
         }
         if args.len() != 1 {
